@@ -50,7 +50,7 @@ pub fn run_queries_io(prop: &str, spec: &FileSpec, bytes: &[u8], model: &Model, 
     yielded
 }
 
-/// Pairs of the battery's iterator-like queries (those with the longest model answers, forward
+/// Observation only (never a verdict). Pairs of the battery's iterator-like queries (those with the longest model answers, forward
 /// with forward, forward with reverse, a query with itself) run alternately over sources sharing
 /// one file position.
 pub fn shared_position_pass(prop: &str, spec: &FileSpec, bytes: &[u8], model: &Model, queries: &[Query], acc: &mut Acc) {
@@ -78,13 +78,11 @@ pub fn shared_position_pass(prop: &str, spec: &FileSpec, bytes: &[u8], model: &M
         acc.transitions += 1;
         match crate::query::check_pair_shared_position(bytes, model, qa, qb) {
             Ok(_) => acc.hist("pair_over_shared_file_position_ok"),
+            // a reader may rely on owning its source's position (no statement speaks of sources
+            // moved by somebody else): observed and noted, never a verdict
             Err(msg) => {
-                acc.hist("violation");
-                acc.violation(Violation {
-                    signature: format!("shared;{};{};{}", serde_json::to_string(spec).unwrap(), serde_json::to_string(qa).unwrap(), serde_json::to_string(qb).unwrap()),
-                    summary: format!("{prop}: file {} {}: {msg}", serde_json::to_string(&spec.cfg).unwrap(), crate::c01::describe(spec)),
-                    case: json!({"kind": "query", "file": spec, "query": qa, "second_query": qb, "shared_position": true}),
-                });
+                let _ = (prop, spec, msg);
+                acc.count("note_results_differ_when_sources_share_one_file_position_(not_a_verdict)", 1);
             }
         }
     }
